@@ -36,6 +36,7 @@ Definition chunk_all_ranges (c : chunk) : rangelist :=
   opt_ranges (ck_stable0 c) ++ opt_ranges (ck_stable1 c) ++ flat_map ms_ranges (ck_mig0 c) ++ flat_map ms_ranges (ck_mig1 c).
 
 Record part_inv (chunks : list chunk) : Prop := mkPartInv {
+  (* S *) pi_size : 2 * N.of_nat (length chunks) <= SLOT_NUM;     (* never more masters than slots *)
   (* W *) pi_wf : Forall wf_range (flat_map chunk_all_ranges chunks);
   (* N *) pi_nonempty : forall pos e, In e (entries_at chunks pos) -> ms_ranges e <> [];
   (* C *) pi_cover : covers_once (owned chunks);
